@@ -27,7 +27,7 @@ ASSUMPTIONS = [
     "myokit's SBML importer naming convention (c.s_amount, c.size, global.p)"]
 REQUIRED = ['gen', 'lib:pk', 'lib:koch', 'lib:koch_r', 'lib:erlotinib', 'sens', 'reduced', 'renamed', 'tied_times',
             'intermediate_output', 'order_differs', 'model_order_differs', 'derived_const', 'refix', 'refix:same_count',
-            'admin:indirect', 'rename_then_admin', 'dosed:sens']
+            'admin:indirect', 'rename_then_admin', 'dosed:sens', 'dosed:global_state', 'negative_initial_value']
 LIBS = ['pk', 'koch', 'koch_r', 'erlotinib']
 
 
@@ -58,7 +58,7 @@ def _spec(draw):
     if gen.chance(draw, 0.3):
         # PKPD flavour: a route of administration (no doses scheduled); the indirect route adds a depot state and
         # an absorption rate in the middle of the published parameter order
-        admin = dict(comp=draw(st.integers(0, len(ms['comps']) - 1)), direct=gen.chance(draw, 0.4),
+        admin = dict(comp=draw(st.integers(0, len(ms['comps']) + len(ms['gstates']) - 1)), direct=gen.chance(draw, 0.4),
                      rename_first=draw(st.booleans()))
         if gen.chance(draw, 0.6):
             # a dosing regimen: the initial-value problem then has a scheduled input, which every later
@@ -68,6 +68,12 @@ def _spec(draw):
                                 num=draw(st.integers(1, 3)))
     names = sbmlgen.published_parameters(ms, admin)
     theta = gen.distinct(draw(gen.vec(gen.logu(0.1, 3.0), len(names))))
+    neg = []
+    if gen.chance(draw, 0.2):
+        # states that start below zero (deviations from a baseline, logarithms): an initial value is any real number
+        n_states = len(sbmlgen.state_qnames(ms)) + (1 if (admin is not None and not admin['direct']) else 0)
+        neg = draw(gen.subset(n_states, min_size=1))
+        theta = [-v if i in neg else v for i, v in enumerate(theta)]
     cands = sbmlgen.state_qnames(ms) + sbmlgen.intermediate_qnames(ms)
     outputs = None
     if not gen.chance(draw, 0.25):
@@ -97,7 +103,7 @@ def _spec(draw):
     if admin is not None and outputs is None:
         outputs = sorted(cands)
     return dict(src='gen', ms=ms, theta=theta, times=times, tied=tied, sens=sens, outputs=outputs,
-                fixed=fixed, rename=rename, refix=refix, admin=admin)
+                fixed=fixed, rename=rename, refix=refix, admin=admin, negative_initial=bool(neg))
 
 
 def strategy(tier):
@@ -111,6 +117,8 @@ def classify(spec):
     else:
         labs.append('gen')
         ms = spec['ms']
+        if spec.get('negative_initial'):
+            labs.append('negative_initial_value')
         if spec['fixed']:
             labs.append('reduced')
         if spec['rename']:
@@ -121,6 +129,8 @@ def classify(spec):
             labs.append('admin:' + ('direct' if spec['admin']['direct'] else 'indirect'))
             if spec['admin'].get('reg'):
                 labs.append('dosed')
+                if spec['admin']['comp'] >= len(ms['comps']):
+                    labs.append('dosed:global_state')
                 if spec['sens']:
                     labs.append('dosed:sens')
             if spec['rename'] and spec['admin']['rename_first']:
@@ -281,10 +291,15 @@ def check(case):
     if admin:
         with case.clause('administration'):
             if s['rename'] and admin['rename_first']:
-                pmap_first = {names[i]: 'P%d' % i for i in s['rename']['params']}
+                pmap_first = {names[i]: 'renamed parameter no. %d (a long display name)' % i for i in s['rename']['params']}
                 M.set_parameter_names(pmap_first)
-            comp = ms['comps'][admin['comp']]
-            M.set_administration(comp['id'], amount_var='%s_amount' % comp['sid'], direct=admin['direct'])
+            # (compartments first, then the states of 'global': variables declared by a rate rule, without a unit)
+            if admin['comp'] < len(ms['comps']):
+                comp = ms['comps'][admin['comp']]
+                M.set_administration(comp['id'], amount_var='%s_amount' % comp['sid'], direct=admin['direct'])
+            else:
+                M.set_administration('global', amount_var=ms['gstates'][admin['comp'] - len(ms['comps'])]['id'],
+                                     direct=admin['direct'])
             if admin.get('reg'):
                 r = admin['reg']
                 M.set_dosing_regimen(dose=r['dose'], start=r['start'], duration=r['duration'], period=r['period'],
@@ -317,7 +332,7 @@ def check(case):
     if s['rename']:
         with case.clause('rename'):
             if not pmap_first:
-                pmap = {names[i]: 'P%d' % i for i in s['rename']['params']}
+                pmap = {names[i]: 'renamed parameter no. %d (a long display name)' % i for i in s['rename']['params']}
                 M.set_parameter_names(pmap)
                 pub_names = [pmap.get(n, n) for n in names]
             case.equal(M.parameters(), pub_names, 'parameter names after renaming keep their positions')
